@@ -28,3 +28,11 @@ CLAIMS['C20'] = dict(
           'after insert under the map mutex; no synchronous guard across a yield. Facts about what lies inside which guard hold for every schedule. '
           'Liveness as a whole (runtime fairness, cancellation of the owning caller) is not decided.'),
     note='Trusted: tokio Notify::notified() registers for notify_waiters() at creation (documented); parking_lot RwLock mutual exclusion.')
+CLAIMS['C13'] = dict(
+    technique='static analysis: path-effect conservation (balance states) paired with container mutations + lock-guard live-range ordering + who-may-write',
+    text=('Decides structural counter conservation: every removal from / insertion into a tracked-item vector is matched on every non-error path by the '
+          'corresponding num_items/total_bytes update whose operand is that element\'s len (four enumerated provenance forms incl. accumulator-then-flush), a key is '
+          'dropped only when empty, eviction for exactly the added length precedes the byte add inside one state-guard live range, file deletions happen after the '
+          'guard is released, and nothing else writes the counters. Per-path facts inside one lock region hold for every history and interleaving, including identical '
+          'concurrent puts. The capacity arithmetic and file-system/state agreement under racing deletions are not decided.'),
+    note='Error exits (`?` failing between a removal and its counter update) are excluded from the per-path obligation and reported as information.')
